@@ -6603,6 +6603,53 @@ class NetCDFRead(IORead):
         return field_ancillary
 
     def _parse_cell_methods(self, cell_methods_string, field_ncvar=None):
+        """Parse a CF cell_methods string, tolerating truncated strings.
+
+        A string that ends in the middle of a cell method (e.g. after
+        "within", or inside unclosed parentheses) is reported as a
+        dataset non-compliance of the data variable and no cell
+        methods are returned, as for an incorrectly formatted
+        interval.
+
+        .. versionadded:: (cfdm) 1.7.0
+
+        :Parameters:
+
+            cell_methods_string: `str`
+                A CF cell methods string.
+
+            field_ncvar: `str`, optional
+                The netCDF name of the data variable that contains the
+                cell methods.
+
+        :Returns:
+
+            `list` of `dict`
+
+        """
+        try:
+            return self._parse_cell_methods_string(
+                cell_methods_string, field_ncvar
+            )
+        except IndexError:
+            incorrectly_formatted = (
+                "cell_methods attribute",
+                "is incorrectly formatted",
+            )
+            if not field_ncvar:
+                raise ValueError(incorrectly_formatted)
+
+            self._add_message(
+                field_ncvar,
+                field_ncvar,
+                message=incorrectly_formatted,
+                attribute={field_ncvar + ":cell_methods": cell_methods_string},
+            )
+            return []
+
+    def _parse_cell_methods_string(
+        self, cell_methods_string, field_ncvar=None
+    ):
         """Parse a CF cell_methods string.
 
         .. versionadded:: (cfdm) 1.7.0
